@@ -39,6 +39,11 @@ Proof. exact bin_index_interval. Qed.
 Theorem C12_no_stale_views : molecules_store_only_pos_rot_features = true.
 Proof. reflexivity. Qed.
 
+(** no table operation returns the molecule set it was called on (only the documented copy=False forms do): a result can be changed in
+    place (append, copy=False) without changing the input it was derived from (generated fact over the listed methods) *)
+Theorem C12_results_are_new_objects : table_operations_return_new_objects = true.
+Proof. reflexivity. Qed.
+
 Print Assumptions C12_rows_intact.
 Print Assumptions C12_select_exact.
 Print Assumptions C12_concat_counts.
